@@ -105,7 +105,12 @@ impl<D: DictionaryAccess> StatefulTokenizer<D> {
     /// Prepare StatefulTokenizer for the next data.
     /// Data must be written in the returned reference.
     pub fn reset(&mut self) -> &mut String {
-        self.top_path.as_mut().map(|p| p.clear());
+        // top_path is None after an analysis which failed after resolve_best_path took the vector
+        // (path rewrite plugin or dictionary read error); restore it so that the tokenizer stays usable
+        match self.top_path.as_mut() {
+            Some(p) => p.clear(),
+            None => self.top_path = Some(Vec::new()),
+        }
         self.oov.clear();
         self.input.reset()
     }
